@@ -131,7 +131,7 @@ theorem aave_borIs_changeCollateral (x : Option BorrowInfo) (t : String) (c : Bo
   have hflag : ∀ info, Inv (BorIs tok x) (commitFlag t info) := fun info => aave_borIs_modify x _ (fun _ => rfl)
   have hupd : Inv (BorIs tok x) setUpdated := aave_borIs_modify x _ (fun _ => rfl)
   unfold changeCollateral guardOpen lookupSupply
-  repeat (first | exact hflag _ | inv_step)
+  repeat (first | exact hflag _ | exact Inv.onError h9 (fun s hs => hflag _ s hs) | inv_step)
 
 /-- **an operation that does not target `tok`'s debt leaves that entry exactly as it is** — in any bar, any
     arithmetic, accepted or rejected. -/
